@@ -868,6 +868,8 @@ def thorough_extra(R):
 # ---------------------------------------------------------------------------------------------------------------
 # SUBVIEW — sub-slices taken with get_unchecked inside view accessors stay within the bytes the view was validated for
 def subview_rule(F, R, vts, fns):
+    fns = sorted(set(fns) | {p for p, e in F.fns.items() if e["_crate"] == "sciparse" and not T.is_test_support(p) and F.has_body(p)
+                             and any(re.sub(r"<.*$", "", k) in re.sub(r"^&(mut )?", "", ((e.get("inputs") or [""])[0])) for k in vts)})
     """SUBVIEW: `self.0.get_unchecked(range)` in a view accessor is in bounds.  The view's buffer has exactly the length its
     has_required_size returned (View::try_from_* split at that size): SIZE is obtained by linear-form interpretation of
     has_required_size (an affine form over the bytes-read atoms, e.g. 4 + 8*[seg_i > 0] + 12*seg_i).  Each accessor is
@@ -889,10 +891,14 @@ def subview_rule(F, R, vts, fns):
         recv = re.sub(r"^&(mut )?|^alloc::boxed::Box<|>$", "", ins[0]) if ins else ""
         V = recv if recv in vts else (e.get("self_ty") if e.get("self_ty") in vts else None)
         b = F.body(p)
-        if V is None or b is None or not ins or not ins[0].startswith("&"):
+        Vs = [V] if V else []
+        if V is None and recv:
+            base = re.sub(r"<.*$", "", recv)
+            Vs = [k for k in vts if re.sub(r"<.*$", "", k) == base]      # generic receiver (ScionPacketView<T>): every instantiation
+        if not Vs or b is None or not ins or not ins[0].startswith("&"):
             continue
         sites = [c for c in b.calls if not c.indirect and re.search(r"<impl \[T\]>::get_unchecked(_mut)?$", c.decl) and c.bb in b.live_blocks()
-                 and strip_sites(PN._peel_refs(b.origin(c.args[0]))) == ("field", ("deref", ("param", 1)), "0")]
+                 and strip_sites(PN._peel_refs(b.origin(c.args[0])))[:2] == ("field", ("deref", ("param", 1)))]
         if not sites:
             continue
         n += len(sites)
@@ -900,20 +906,29 @@ def subview_rule(F, R, vts, fns):
         sink = []
         LN.eval_lin(F, p, args, probe=("get_unchecked", 1, sink))
         LN.eval_lin(F, p, args, probe=("get_unchecked_mut", 1, sink))
-        szs = sizes.get(V)
+        szs = [x for v0 in Vs for x in (sizes.get(v0) or [])] if all(sizes.get(v0) for v0 in Vs) else None
         for c in sites:
             here = [(cd, v) for cd, v, bb in sink if bb == c.bb]
             ok, why = False, "not expressible in the linear domain"
             if here and szs and all(isinstance(v, _Agg) and len(v.fields) >= 1 and all(isinstance(x, LN.Lin) for x in v.fields) for cd, v in here):
                 ok = True
                 for cd, v in here:
-                    end = v.fields[1] if len(v.fields) > 1 else None
-                    start = v.fields[0]
+                    if v.adt.endswith("::RangeTo") or v.adt.endswith("::RangeToInclusive"):
+                        start, end = LN.Lin(0), (v.fields[0] if v.adt.endswith("::RangeTo") else v.fields[0].add(LN.Lin(1)))
+                    elif v.adt.endswith("::RangeFrom"):
+                        start, end = v.fields[0], None
+                    elif v.adt.endswith("::RangeFull"):
+                        start, end = LN.Lin(0), None
+                    else:
+                        start, end = v.fields[0], (v.fields[1] if len(v.fields) > 1 else None)
                     if all(LN.unsat(list(cd) + list(sc)) for sc, size in szs):
                         ok = False
                         why = "no constructor path is compatible with this accessor path (vacuous)"
                     for sc, size in szs:
-                        conds = list(cd) + list(sc)       # everything that held on the constructor's Ok path holds for the view
+                        fld = strip_sites(PN._peel_refs(b.origin(c.args[0])))[2]
+                        lenself = LN.Lin.atom("len(self.%s)" % fld)
+                        # everything that held on the constructor's Ok path holds for the view, and the view's buffer has exactly SIZE bytes
+                        conds = list(cd) + list(sc) + [lenself.sub(size), size.sub(lenself)]
                         if LN.unsat(conds):
                             continue                      # this accessor path and this constructor path saw different bytes: impossible together
                         bound = end if end is not None else start
@@ -931,7 +946,7 @@ def subview_rule(F, R, vts, fns):
                 R.discharged -= 1
                 R.violation("SUBVIEW", "%s/get_unchecked" % p, "%s takes self.0.get_unchecked(range) where the range is not proven to lie within the bytes the view was "
                             "validated for (%s): out-of-bounds slice on a successfully constructed view" % (short(p), why), c.span.loc)
-    R.floor("SUBVIEW", len(proven), 18, "get_unchecked sites on self.0 proven within the validated size (8 StandardPathView, 8 ScionHeaderView, 2 UdpDatagramView)")
+    R.floor("SUBVIEW", len(proven), 22, "get_unchecked sites on the view buffer proven within the validated size (8 StandardPathView, 8 ScionHeaderView, 4 ScionPacketView, 2 UdpDatagramView)")
     R.extra["subview"] = {"sites": n, "proven": [(short(p), l) for p, l, w in proven], "not_decided": [(short(p), l, w[:120]) for p, l, w in undecided]}
 
 
